@@ -31,9 +31,19 @@ def http_settings(
     watermark=305419896,
     extra=(),
     pad_strings=True,
+    stale=b"",
 ):
-    """Returns the settings list [(index, type, value)] of a well-formed HTTP beacon configuration."""
+    """Returns the settings list [(index, type, value)] of a well-formed HTTP beacon configuration.
+
+    ``stale``: bytes a fixed-size string buffer still holds behind the terminating NUL (what an earlier, longer value left
+    there); the value of a NUL-terminated string ends at its first NUL."""
     pad = (lambda n: n) if pad_strings else (lambda n: None)
+
+    def cs(b, n):
+        if stale and n and len(b) + 2 <= n:
+            return (b + b"\x00" + stale)[: n - 1].ljust(n, b"\x00")
+        return P.cstr(b, n)
+
     domains = ",".join(f"{d},{u}" for d, u in pairs).encode()
     s = [
         (1, SHORT, struct.pack(">H", proto)),
@@ -44,16 +54,16 @@ def http_settings(
         (7, PTR, pubkey_der + b"\x00" * max(0, 256 - len(pubkey_der))),
         (8, PTR, P.cstr(domains, pad(256))),
         (31, SHORT, struct.pack(">H", crypto_scheme)),
-        (26, PTR, P.cstr(verb_get.encode(), pad(16))),
-        (27, PTR, P.cstr(verb_post.encode(), pad(16))),
+        (26, PTR, cs(verb_get.encode(), pad(16))),
+        (27, PTR, cs(verb_post.encode(), pad(16))),
         (28, INT, struct.pack(">I", 0)),
         (37, INT, struct.pack(">I", watermark)),
         (9, PTR, P.cstr(useragent.encode("latin-1"), pad(128))[: 0x7F + 1] if len(useragent) < 0x7F else P.cstr(useragent.encode("latin-1")[:0x7E])),
-        (10, PTR, P.cstr(submit_uri.encode(), pad(64))),
+        (10, PTR, cs(submit_uri.encode(), pad(64))),
         (11, PTR, P.enc_recover(recover_steps if recover_steps is not None else DEFAULT_RECOVER, pad_to=pad(256))),
         (12, PTR, P.enc_transform(get_steps if get_steps is not None else DEFAULT_GET, build0="metadata", pad_to=pad(512))),
         (13, PTR, P.enc_transform(post_steps if post_steps is not None else DEFAULT_POST, build0="id", pad_to=pad(512))),
-        (54, PTR, P.cstr(host_header.encode(), pad(128))),
+        (54, PTR, cs(host_header.encode(), pad(128))),
     ]
     s += list(extra)
     return s
@@ -80,6 +90,7 @@ def block_from_cfg(cfg, pubkey_der, extra=(), pad_to=4096) -> bytes:
         jitter=cfg["jitter"],
         useragent=cfg["useragent"],
         host_header=cfg.get("host_header", ""),
+        stale=cfg.get("stale", b""),
         extra=extra,
         pad_to=pad_to,
     )
